@@ -9,6 +9,7 @@ import numpy as np
 import common
 import proofs
 import minerals_trace as MT
+import argguard as AG
 from common import hx
 
 FILES = ["gen/Gen_core.v", "Model_core.v", "Model_minerals.v", "Proofs_core.v", "Proofs_minerals.v", "Proofs_flow.v",
@@ -28,9 +29,178 @@ def strain_of(get_L, get_x, t0, t1, k=40):
     return float(np.trapezoid(ss, ts))
 
 
+# --------------------------------------------------------------------------
+# Presentations of the INITIAL TEXTURE (round 7).  Every history above handed Mineral(...) freshly made C-contiguous
+# float64 arrays.  The property quantifies over initial TEXTURES, i.e. over values: the same valid texture may reach
+# the constructor as an integer array (an axis-aligned single crystal / one-hot volumes written with literals), as
+# binary32 (restored from a single-precision file), Fortran-ordered, as a strided or contiguous view of a table the
+# caller keeps, or read-only.  sc["texture_present"] = dict(okind, fkind, o_dtype, f_dtype, o_layout, f_layout):
+#   okind   None: the orientations of sc["tkind"] (generic values; only float64, or ROUNDED to float32)
+#           "axis_single" / "axis_mixed": one / per-grain random element of the 24 proper rotations of the cube
+#           (entries -1, 0, 1: exact in every signed dtype)
+#   fkind   None: the volumes of sc["tkind"];  "onehot" (exact in every numeric dtype);  "dyadic" (1/2, 1/4, ... shuffled)
+#           and "uniform" (1/n, n a power of two): exact in every binary floating dtype
+# A cast that is supposed to be exact is verified to be (ValueError otherwise: the scenario is malformed).
+# --------------------------------------------------------------------------
+TEXTURE_DTYPES_O = ("float64", "float32", "int64", "int32", "int8")
+TEXTURE_DTYPES_F = ("float64", "float32", "int64", "int32", "uint8")
+TEXTURE_LAYOUTS = ("fortran", "strided", "slice", "readonly")
+
+
+def cube_rotations():
+    """the 24 proper signed permutation matrices (int64)"""
+    import itertools
+    out = []
+    for p in itertools.permutations(range(3)):
+        for s in itertools.product((1, -1), repeat=3):
+            M = np.zeros((3, 3), dtype=np.int64)
+            for i in range(3):
+                M[i, p[i]] = s[i]
+            if round(float(np.linalg.det(M))) == 1:
+                out.append(M)
+    return out
+
+
+def exact_texture(rng, n, okind, fkind):
+    """(orientations or None, fractions or None) with exactly representable entries, float64"""
+    O = f = None
+    if okind == "axis_single":
+        O = np.array([cube_rotations()[int(rng.integers(24))]] * n, dtype=float)
+    elif okind == "axis_mixed":
+        cube = cube_rotations()
+        O = np.array([cube[int(i)] for i in rng.integers(24, size=n)], dtype=float)
+    elif okind is not None:
+        raise ValueError(okind)
+    if fkind == "onehot":
+        f = np.zeros(n)
+        f[int(rng.integers(n))] = 1.0
+    elif fkind == "dyadic":
+        if n > 24:
+            raise ValueError("dyadic volumes: at most 24 grains (2^-23 must be exact in binary32)")
+        f = np.array([2.0 ** -(i + 1) for i in range(n - 1)] + [2.0 ** -(n - 1)])
+        f = f[rng.permutation(n)]
+    elif fkind == "uniform":
+        if n & (n - 1):
+            raise ValueError("uniform exact volumes need a power-of-two grain count")
+        f = np.full(n, 1.0 / n)
+    elif fkind is not None:
+        raise ValueError(fkind)
+    return O, f
+
+
+def present_array(a, dtype=None, layout=None, exact=True):
+    """the same values as another dtype / memory presentation (the dtype is kept by the layout step)"""
+    a = np.ascontiguousarray(a)
+    b = a.astype(dtype or a.dtype)
+    if exact and not np.array_equal(b.astype(float), a.astype(float)):
+        raise ValueError(f"presentation as {dtype} would change the values of the texture")
+    if layout in (None, "none"):
+        return b
+    if layout == "fortran":         # 1-D arrays have no Fortran order: a transposed copy of a (n, 1) column instead
+        return np.asfortranarray(b) if b.ndim > 1 else np.asfortranarray(b.reshape(-1, 1))[:, 0]
+    if layout == "strided":         # every second entry of a table the caller keeps
+        big = np.zeros(b.shape[:-1] + (2 * b.shape[-1],), dtype=b.dtype)
+        v = big[..., ::2]
+        v[...] = b
+        return v
+    if layout == "slice":           # one C-contiguous entry of a larger stack (what indexing a loaded / stacked history gives)
+        big = np.zeros((3,) + b.shape, dtype=b.dtype)
+        big[1] = b
+        return big[1]
+    if layout == "readonly":
+        b = b.copy()
+        b.setflags(write=False)
+        return b
+    raise ValueError(layout)
+
+
+def build_presented(sc, assemblage=None, fractions=None):
+    """MT.build, with the initial texture replaced by the presentation sc["texture_present"] asks for"""
+    tp = sc.get("texture_present")
+    if not tp:
+        return MT.build(sc, assemblage, fractions)
+    import pydrex
+    m0, params, get_L, get_x, desc = MT.build(sc, assemblage, fractions)    # flow, pathline, parameters, ordinals of the scenario
+    O, f = MT.init_texture(np.random.default_rng(sc["seed"]), sc["n"], sc["tkind"])     # = the texture MT.build made
+    Oe, fe = exact_texture(np.random.default_rng([int(sc["seed"]), 0x7E47]), sc["n"], tp.get("okind"), tp.get("fkind"))
+    od, fd = tp.get("o_dtype") or "float64", tp.get("f_dtype") or "float64"
+    # generic values: float64 as they are, or ROUNDED to binary32 (a texture restored from a single-precision file)
+    if (Oe is None and od not in ("float64", "float32")) or (fe is None and fd not in ("float64", "float32")):
+        raise ValueError("generic texture values have no exact integer presentation")
+    Op = present_array(O if Oe is None else Oe, od, tp.get("o_layout"), exact=Oe is not None or od == "float64")
+    fp = present_array(f if fe is None else fe, fd, tp.get("f_layout"), exact=fe is not None or fd == "float64")
+    m = pydrex.Mineral(phase=m0.phase, fabric=m0.fabric, regime=m0.regime, n_grains=sc["n"],
+                       fractions_init=fp, orientations_init=Op)
+    desc["texture_args"] = (Op, fp)
+    return m, params, get_L, get_x, desc
+
+
+def texture_presentation_scenarios(rng, tier="quick", regimes=(4, 6, 4, 0, 4, 6, 7, 4)):
+    """Histories (2 updates: what the first update stores is what the second starts from) whose INITIAL TEXTURE reaches
+    Mineral(...) in another dtype / memory presentation.  One-hot volumes run with chi > 0 (otherwise the volume block never
+    moves).  Each new (dtype, layout) of the orientations is one more numba specialisation of apply_gbs (~0.7 s)."""
+    plan = [  # okind, fkind, o_dtype, f_dtype, o_layout, f_layout
+        ("axis_single", "onehot", "int64", "int64", None, None),       # np.array([[[1,0,0],[0,1,0],[0,0,1]]] * n), np.array([1,0,...])
+        ("axis_mixed", "onehot", "int32", "int32", None, None),
+        ("axis_mixed", "dyadic", "int8", "float64", None, None),
+        (None, "onehot", "float64", "int64", None, None),              # integer volumes alone
+        ("axis_single", None, "int64", "float64", None, None),         # integer orientations alone
+        ("axis_mixed", "dyadic", "float32", "float32", None, None),
+        ("axis_single", "uniform", "float32", "float32", None, None),
+        (None, None, "float32", "float32", None, None),                # generic texture rounded to binary32
+        (None, "onehot", "float64", "uint8", None, "strided"),
+        (None, None, "float64", "float64", "fortran", "fortran"),
+        (None, None, "float64", "float64", "strided", "strided"),
+        (None, None, "float64", "float64", "slice", "slice"),
+        (None, None, "float64", "float64", "readonly", "readonly"),
+        ("axis_mixed", "onehot", "int64", "int64", "fortran", "slice"),
+        ("axis_mixed", "uniform", "float32", "float64", "strided", "readonly"),
+    ]
+    if tier == "thorough":      # every dtype of either array x every layout, exact textures
+        for i, od in enumerate(TEXTURE_DTYPES_O):
+            for j, fd in enumerate(TEXTURE_DTYPES_F):
+                for k, lay in enumerate((None,) + TEXTURE_LAYOUTS):
+                    fk = "onehot" if fd[0] in "iu" else ("dyadic", "uniform")[(i + j + k) % 2]
+                    plan.append((("axis_single", "axis_mixed")[(i + j + k) % 2], fk, od, fd, lay, TEXTURE_LAYOUTS[(i + k) % 4] if k else None))
+    out = []
+    for i, (ok, fk, od, fd, ol, fl) in enumerate(plan):
+        n = int((2, 4, 8, 16)[int(rng.integers(4))]) if fk == "uniform" else int(rng.integers(2, 17))
+        sc = MT.scenario(rng, regime=int(regimes[i % len(regimes)]), pair=MT.ACCEPTED[i % len(MT.ACCEPTED)], n=n, nupd=2,
+                         # axis-aligned crystals sit on symmetric (non-rotating) orientations of axis-aligned flows: oblique flows for them
+                         lkind=(("general", "time", "trace", "position")[i % 4] if ok else
+                                ("simple", "general", "pure", "time", "trace", "position")[i % 6]),
+                         tkind=MT.T_KINDS[i % len(MT.T_KINDS)], strain=float(rng.uniform(0.3, 0.8)))
+        sc["params"]["gbm_mobility"] = float(rng.uniform(20, 200))
+        if fk == "onehot":
+            sc["params"]["gbs_threshold"] = float(rng.uniform(0.1, 0.9))
+        sc["texture_present"] = dict(okind=ok, fkind=fk, o_dtype=od, f_dtype=fd, o_layout=ol, f_layout=fl)
+        out.append(sc)
+    return out
+
+
+def note_presentation(chk, sc, hist):
+    """evidence: histograms of the presentations of the initial texture that were run"""
+    tp = sc.get("texture_present")
+    if not tp:
+        return
+    cov = chk.cov.setdefault("texture_presentations", {"histories": 0, "updates_completed": 0, "orientations_dtype": {}, "fractions_dtype": {},
+                                                        "orientations_layout": {}, "fractions_layout": {}, "values": {},
+                                                        "stored_dtypes": {}})
+    cov["histories"] += 1
+    cov["updates_completed"] += sum(1 for u in hist["updates"] if "error" not in u)
+    for key, val in (("orientations_dtype", tp.get("o_dtype")), ("fractions_dtype", tp.get("f_dtype")),
+                     ("orientations_layout", tp.get("o_layout") or "c-contiguous"), ("fractions_layout", tp.get("f_layout") or "c-contiguous"),
+                     ("values", f"{tp.get('okind') or sc['tkind']}/{tp.get('fkind') or sc['tkind']}")):
+        cov[key][str(val)] = cov[key].get(str(val), 0) + 1
+    m = hist["mineral"]
+    for o, f in zip(m.orientations[1:], m.fractions[1:]):      # reported, not judged: C01 has no clause on the dtype of a snapshot
+        k = f"{np.asarray(o).dtype}/{np.asarray(f).dtype}"
+        cov["stored_dtypes"][k] = cov["stored_dtypes"].get(k, 0) + 1
+
+
 def run_history(rec, sc, assemblage=None, fractions=None, F0=None, collect=None):
     """Drive one scenario; returns dict with per-update records and monitor failures."""
-    m, params, get_L, get_x, desc = MT.build(sc, assemblage, fractions)
+    m, params, get_L, get_x, desc = build_presented(sc, assemblage, fractions)
     n = sc["n"]
     F = np.eye(3) if F0 is None else F0.copy()
     if sc.get("F0_layout"):      # the same starting F in another memory presentation (Fortran order, strided view, read-only)
@@ -54,9 +224,13 @@ def run_history(rec, sc, assemblage=None, fractions=None, F0=None, collect=None)
         kw = {}
         if sc.get("regime_switch"):
             kw["get_regime"] = (lambda tt, xx, sc=sc: MT.regime_given(sc, tt))
+        guard = AG.snapshot((params, F) + tuple(desc.get("texture_args", ())))     # the caller's objects: parameters, F, initial texture arrays
         tr, Fn = rec.update(m, params, F, get_L, (t, t + dt, get_x), **kw)
         u = dict(index=k, t0=t, t1=t + dt, trace=tr)
         out["updates"].append(u)
+        for fault in AG.diff(guard):
+            out["fails"].append((k, "argument of update_orientations " + fault.replace("arg0", "params").replace("arg1", "deformation_gradient")
+                                 .replace("arg2", "orientations_init").replace("arg3", "fractions_init")))
         # earlier snapshots untouched, list growth
         for i, (ob, fb) in enumerate(frozen):
             if m.orientations[i].tobytes() != ob or m.fractions[i].tobytes() != fb:
@@ -71,16 +245,21 @@ def run_history(rec, sc, assemblage=None, fractions=None, F0=None, collect=None)
             out["fails"].append((k, "update did not append exactly one snapshot"))
         frozen.append((m.orientations[-1].tobytes(), m.fractions[-1].tobytes()))
         eps += strain_of(get_L, get_x, t, t + dt)
-        O, f = m.orientations[-1], m.fractions[-1]
-        for msg in MT.snapshot_valid(np.asarray(O), np.asarray(f), n):
+        # the stored VALUES are judged (value-preserving conversion to binary64 of whatever dtype the snapshot has)
+        O, f = np.asarray(m.orientations[-1]), np.asarray(m.fractions[-1])
+        if O.dtype.kind not in "fiub" or f.dtype.kind not in "fiub":
+            out["fails"].append((k, f"stored snapshot is not numeric (dtypes {O.dtype} / {f.dtype})"))
+            break
+        O, f = O.astype(float), f.astype(float)
+        for msg in MT.snapshot_valid(O, f, n):
             out["fails"].append((k, msg))
-        if np.all(np.isfinite(O)):
-            err = MT.orthonormality_error(np.asarray(O))
+        if O.shape == (n, 3, 3) and np.all(np.isfinite(O)):
+            err = MT.orthonormality_error(O)
             bound = 5e-3 + 1e-3 * ((k + 1) + 2 * eps)
             u["orth_err"], u["orth_bound"] = err, bound
             if err > bound:
                 out["fails"].append((k, f"orthonormality error {err:.3e} exceeds {bound:.3e}"))
-            if np.linalg.det(np.asarray(O)).min() <= 0:
+            if np.linalg.det(O).min() <= 0:
                 out["fails"].append((k, "left-handed orientation matrix"))
         if k == 0 and sc.get("F0_layout") and not np.array_equal(F, Fkeep):
             out["fails"].append((k, "the caller's starting deformation gradient was modified in place by the update"))
@@ -130,8 +309,8 @@ def validate_traces(chk, hist, bad, rtol_rhs=1e-9):
         tr = u["trace"]
         k = u["index"]
         if kind == "update":
-            impl = list(tr.F_returned.reshape(-1)) + list(np.asarray(m.orientations[k + 1]).reshape(-1)) \
-                + list(np.asarray(m.fractions[k + 1]))
+            impl = list(tr.F_returned.reshape(-1)) + list(np.asarray(m.orientations[k + 1], dtype=float).reshape(-1)) \
+                + list(np.asarray(m.fractions[k + 1], dtype=float))
             nontriv = not np.array_equal(np.asarray(m.orientations[k + 1]), np.asarray(m.orientations[k]))
             chk.note_case(("update", sc["seed"], k), nontrivial=nontriv,
                           sample={"kind": "update", "phase_fabric": list(sc["pair"]), "regime": sc["regime"],
@@ -202,6 +381,8 @@ def scenarios(chk, tier, regimes=(4, 4, 4, 6, 0, 7), extra_diffusion=True):
     scs += MT.coincident_scenarios(np.random.default_rng([chk.seed, 0xC06D]), tier, regimes=(4, 6, 4, 0, 7))
     # grain counts on block boundaries (independent stream; the scenarios above are unchanged)
     scs += MT.block_scenarios(np.random.default_rng([chk.seed, 0xB10C]), tier, regimes=(4, 6, 4, 0))
+    # the initial texture in another dtype / memory presentation (own stream; the scenarios above are unchanged)
+    scs += texture_presentation_scenarios(np.random.default_rng([chk.seed, 0x7E47]), tier)
     if tier == "thorough":
         scs.append(MT.scenario(rng, regime=4, n=500, nupd=2))
         scs.append(MT.scenario(rng, regime=4, n=20, nupd=100, strain=3.0))
@@ -231,7 +412,9 @@ def run(chk):
     chk.cov["rule"] = ("histories = every accepted (phase, fabric) x both dislocation regimes + seeded random scenarios over regimes {4,6,0,7}, "
                        "7 flow families (simple/pure/axisymmetric/general/non-zero trace/time-dependent/position-dependent along a pathline) + stopping / spin / shared-array "
                        "flows + 5 families whose samples at the start, midpoint and end of every update coincide exactly (cosine periods, pulses, shear zones, closed pathline), "
-                       "4 initial texture families, 2..24 grains + block-boundary grain counts (63..1024 [thorough ..4096]: powers of two and neighbours, multiples of 64/128/256/1000/1024), 1..4 updates, M* in [0,200], chi in [0,0.9] (20% chi=0), lambda* in [0,10]; "
+                       "4 initial texture families + the initial texture presented as int64 / int32 / int8 / uint8 / float32 arrays (axis-aligned orientations, one-hot / dyadic / "
+                       "power-of-two uniform volumes: exact in those dtypes; generic textures rounded to binary32) and Fortran-ordered / strided / slice-of-a-stack / "
+                       "read-only (15 histories of 2 updates, thorough +125; the caller's parameters, F and texture arrays must come back unchanged), 2..24 grains + block-boundary grain counts (63..1024 [thorough ..4096]: powers of two and neighbours, multiples of 64/128/256/1000/1024), 1..4 updates, M* in [0,200], chi in [0,0.9] (20% chi=0), lambda* in [0,10]; "
                        "every update is one case (the model must reproduce the stored snapshot from LSODA's last vector) and up to 6 recorded "
                        "eval_rhs calls per update are further cases; non-trivial = the texture changed / the rates are not all zero")
     bad, mon = [], []
@@ -242,6 +425,7 @@ def run(chk):
             for sc in scenarios(chk, chk.tier):
                 h = run_history(rec, sc)
                 validate_traces(chk, h, bad)
+                note_presentation(chk, sc, h)
                 for k, msg in h["fails"]:
                     mon.append((sc, k, msg))
                 for u in h["updates"]:
